@@ -110,7 +110,9 @@ func goroutineIDs() map[string]bool {
 func countPollers() int {
 	n := 0
 	for _, g := range goroutines() {
-		if strings.Contains(g.stack, "reflection.(*Resolver).watch") {
+		// a goroutine that has not run yet shows only its "created by" line
+		if strings.Contains(g.stack, "reflection.(*Resolver).watch") ||
+			strings.Contains(g.stack, "created by github.com/renbou/grpcbridge/reflection.(*ResolverBuilder).Build") {
 			n++
 		}
 	}
